@@ -2011,6 +2011,57 @@ example : (parseEvents C01_modesEnv [] ([.metadata (C01_txt "[duplicate]" 3) (C0
     ["redundant-ref"] := by rfl
 
 
+/-! examples: the hypotheses of `C01_reference_event_any_mode`, `C01_definition_event_any_mode`, `C01_duplicate_reference_table`,
+    `C01_duplicate_reference_first`, `C01_default_modes_table`, `C01_cookware_reference_event_any_mode` hold in the state after the definition
+    `@salt{=1%tsp}` with duplicate mode `reference` (and define mode `steps` for the third): the plain `@salt`
+    (`C01_exSalt2`, no `&`) is an implicit reference to entry 0; `@pepper` is a first occurrence -/
+def C01_exAfterDefDup : Col Rat := { C01_exAfterDef with duplicateMode := .reference }
+def C01_exPepper : Loc (PIngredient Rat) := ⟨⟨⟨⟨0⟩, ⟨65, 65⟩⟩, none, C01_txt "pepper" 65, none, none, none⟩, ⟨64, 71⟩⟩
+example : C01_exAfterDefDup.block = some (.step [.ingredient 0]) ∧ C01_exSalt2.val.inter = none ∧
+    C01_exSalt2.val.modifiers.val.contains Modifiers.NEW = false ∧
+    (C01_exSalt2.val.modifiers.val.contains Modifiers.REF = true ∨ C01_exAfterDefDup.defineMode = .steps ∨
+      C01_exAfterDefDup.duplicateMode = .reference) ∧
+    (C01_exSalt2.val.modifiers.val.contains Modifiers.REF = true →
+      C01_exAfterDefDup.defineMode ≠ .steps ∧ C01_exAfterDefDup.duplicateMode = .new) ∧
+    sameNameIdx C01_modesEnv (C01_exAfterDefDup.ingredients.toList.map (fun x => (x.name, x.modifiers)))
+      (ingrOf C01_modesEnv C01_exSalt2).name = some 0 ∧
+    C01_exAfterDefDup.ingredients[0]? = some (ingrOf C01_toyEnv C01_exSalt1) ∧
+    C01_exAfterDefDup.locIngr[0]? = some C01_exSalt1 ∧
+    refConflict C01_exSalt2.val.modifiers.val
+      ⟨(ingrOf C01_toyEnv C01_exSalt1).modifiers.bits &&& (Modifiers.HIDDEN ||| Modifiers.OPT ||| Modifiers.RECIPE)⟩ = 0 :=
+  ⟨rfl, rfl, by decide, Or.inr (Or.inr rfl), fun h => absurd h (by decide), by decide, rfl, rfl, by decide⟩
+example : RefChecksQuiet C01_modesEnv C01_exSalt2 (ingrOf C01_modesEnv C01_exSalt2).quantity
+    (ingrOf C01_toyEnv C01_exSalt1) true :=
+  ⟨by decide, rfl, by decide, fun rq dq h => by cases h⟩
+example : (C01_exPepper.val.modifiers.val.contains Modifiers.NEW = false ∧ C01_exAfterDefDup.defineMode ≠ .steps ∧
+    (C01_exAfterDefDup.duplicateMode = .new ∨
+      sameNameIdx C01_modesEnv (C01_exAfterDefDup.ingredients.toList.map (fun x => (x.name, x.modifiers)))
+        (ingrOf C01_modesEnv C01_exPepper).name = none)) :=
+  ⟨by decide, by decide, Or.inr (by decide)⟩
+example : ingrPushM C01_modesEnv .steps .reference [] 0 #[ingrOf C01_modesEnv C01_exSalt1] none
+      (ingrOf C01_modesEnv C01_exSalt2) =
+    #[backlinked (ingrOf C01_modesEnv C01_exSalt1) [] 1 true none,
+      asReference (ingrOf C01_modesEnv C01_exSalt2) (ingrOf C01_modesEnv C01_exSalt1).modifiers 0] :=
+  C01_duplicate_reference_table C01_modesEnv .steps [] 0 _ _ 0 _ [] true none (by decide) (by decide) rfl rfl
+example : ingrPushM C01_modesEnv .all .reference [] 0 #[ingrOf C01_modesEnv C01_exSalt1] none
+      (ingrOf C01_modesEnv C01_exPepper) = #[ingrOf C01_modesEnv C01_exSalt1, ingrOf C01_modesEnv C01_exPepper] :=
+  C01_duplicate_reference_first C01_modesEnv .all .reference [] 0 _ _ (Or.inr (by decide))
+example : ingrPushM C01_modesEnv .all .new [] 0 #[ingrOf C01_modesEnv C01_exSalt1] none (ingrOf C01_modesEnv C01_exSalt2) =
+    #[ingrOf C01_modesEnv C01_exSalt1, ingrOf C01_modesEnv C01_exSalt2] :=
+  C01_default_modes_table C01_modesEnv [] 0 _ _ (by decide)
+/-- cookware: `#pot` twice in duplicate mode `reference` -/
+def C01_exPot2 : Loc (PCookware Rat) := ⟨⟨⟨⟨0⟩, ⟨41, 41⟩⟩, C01_txt "pot" 41, none, none, none⟩, ⟨40, 44⟩⟩
+example : sameNameIdx C01_modesEnv ([cwOf C01_modesEnv C01_exPot1].map (fun x => (x.name, x.modifiers)))
+      (cwOf C01_modesEnv C01_exPot2).name = some 0 ∧
+    refConflict C01_exPot2.val.modifiers.val
+      ⟨(cwOf C01_modesEnv C01_exPot1).modifiers.bits &&& (Modifiers.HIDDEN ||| Modifiers.OPT)⟩ = 0 ∧
+    CwRefChecksQuiet C01_exPot2 (cwOf C01_modesEnv C01_exPot2).quantity (cwOf C01_modesEnv C01_exPot1) true :=
+  ⟨by decide, by decide, ⟨rfl, by decide, fun rq dq h => by cases h⟩⟩
+example : (parseEvents C01_modesEnv [] ([.metadata (C01_txt "[duplicate]" 3) (C01_txt "reference" 16)] ++
+      stepEvents [.cookware C01_exPot1, .cookware C01_exPot2])).output.map
+      (fun c => (c.cookware.toList.map (·.relation), c.diags.toList)) =
+    some ([.definition [1] true, .reference 0], []) := by rfl
+
 /-- **The round trip for documents with mode switches, from the printed characters to the recipe.**  `doc` as in
     `C01_recipe_doc_refs` (steps, section lines, `>>` lines, text paragraphs; the same hypotheses on the syntax
     layers), but a `>>` line may be a MODE SWITCH: under MODES a line whose key is `[mode]` / `[define]` with the
@@ -2064,6 +2115,12 @@ theorem C01_ext_conditions_vacuous {α : Type} [Arith α] (env : Env)
 theorem C01_plain_line_is_entry {α : Type} [Arith α] (env : Env) (k v : List Tok) (p : MPad)
     (hp : (DocItem.metaLine k v p).plain env) : metaLineY (α := α) env k v = .entry (leafText k) (leafText v) :=
   rtdm_metaLineY_plain env k v p hp
+
+example : metaLineY (α := Rat) C01_modesEnv [tk .word "source".toList] [tk .word "me".toList] =
+    .entry "source".toList "me".toList :=
+  C01_plain_line_is_entry C01_modesEnv _ _ {} ⟨by decide, fun sk _ => ⟨by simp [C01_modesEnv], by
+    have hk : StdKey.ofStr (String.ofList (leafText [tk .word "source".toList])) = some .source := by decide
+    rename_i h; rw [hk] at h; cases h; decide⟩⟩
 
 /-! example, under MODES + MODIFIERS: every switch once.
     `>> [duplicate]: ref` / `Mix @flour{200%g} in #bowl{}.` / `Add @flour{50%g} to #bowl{}.` / `>> [mode]: text` /
